@@ -676,6 +676,18 @@ impl Lockable<HeapBytes> for HeapBytes {
 /// allocated region of memory.
 pub struct PageAlignedAllocator;
 
+#[cfg(feature = "verif_hooks")]
+static VERIF_RELEASE_OBSERVER: std::sync::Mutex<Option<fn(usize, usize)>> =
+    std::sync::Mutex::new(None);
+
+/// Verification hook: `f(address, size)` is called by the page-aligned
+/// allocator immediately before it gives a region back to the system
+/// allocator, so a check can inspect what is being released.
+#[cfg(feature = "verif_hooks")]
+pub fn verif_set_release_observer(f: Option<fn(usize, usize)>) {
+    *VERIF_RELEASE_OBSERVER.lock().unwrap() = f;
+}
+
 lazy_static! {
     static ref PAGESIZE: usize = {
         #[cfg(unix)]
@@ -762,6 +774,11 @@ unsafe impl Allocator for PageAlignedAllocator {
     #[inline]
     unsafe fn deallocate(&self, ptr: ptr::NonNull<u8>, layout: Layout) {
         let pagesize = *PAGESIZE;
+
+        #[cfg(feature = "verif_hooks")]
+        if let Some(f) = *VERIF_RELEASE_OBSERVER.lock().unwrap() {
+            f(ptr.as_ptr() as usize, layout.size());
+        }
 
         let ptr = ptr.as_ptr().offset(-(pagesize as isize));
 
